@@ -6,8 +6,9 @@
    (check / raw_check / gen_evaluations / __call__) on the hand-written model, tied by trace correspondence.
    Oracles (parser, evaluator, tolerance comparison, name syntax) are universally quantified.
 
-   Three full-strength error statements of the property do NOT hold of the faithful model (nor of the code):
-   they are kept as comments next to the _partial theorems, with _refuted witnesses. *)
+   One full-strength error statement of the property does NOT hold of the faithful model (nor of the code): failures in
+   the author's own sum outside the guarded evaluation.  It is kept as a comment next to the _partial theorem, with
+   _refuted witnesses (known findings).  The instructor-variable statements became full after fixes 390fac8 / e54e9a1. *)
 From Coq Require Import ZArith QArith Bool List Permutation Sorted.
 From Verif.Lib Require Import SummationPy.
 From Verif.Gen Require Summation.
@@ -93,14 +94,15 @@ Print Assumptions C19_sum_is_over_the_index_set.
 
 (* renaming of the summation variable (evaluate_sum level): if the renamed summand evaluates like the original *)
 Theorem C19_sum_reindex_rename : forall (V : Type) (vzero : V) (vadd : V -> V -> V) (parses : str -> outcome unit)
-    (uses_fact uses_factorial : str -> bool) (eval_limit : str -> list str -> nat -> outcome pyv)
+    (uses_fact uses_factorial : str -> bool) (eval_limit : str -> list str -> nat -> outcome pyv) (scope_check : str -> list str -> str -> outcome unit)
     (eval_term : str -> list str -> str -> Z -> nat -> outcome V) (cfg : config) (s s' lower upper v v' : str)
     (scope : list str) (i : nat),
   mem v' scope = mem v scope -> parses s' = parses s ->
   uses_fact s' = uses_fact s -> uses_factorial s' = uses_factorial s ->
+  scope_check s' scope v' = scope_check s scope v ->
   (forall n, eval_term s' scope v' n i = eval_term s scope v n i) ->
-  evaluate_sum vzero vadd parses uses_fact uses_factorial eval_limit eval_term cfg s' lower upper v' scope i
-  = evaluate_sum vzero vadd parses uses_fact uses_factorial eval_limit eval_term cfg s lower upper v scope i.
+  evaluate_sum vzero vadd parses uses_fact uses_factorial eval_limit scope_check eval_term cfg s' lower upper v' scope i
+  = evaluate_sum vzero vadd parses uses_fact uses_factorial eval_limit scope_check eval_term cfg s lower upper v scope i.
 Proof. exact @rename_variable. Qed.
 Print Assumptions C19_sum_reindex_rename.
 
@@ -136,14 +138,15 @@ Print Assumptions C19_cutoff_choice.
 (* evaluate_sum on integer / infinite limits                                                       *)
 (* ---------------------------------------------------------------------------------------------- *)
 Theorem C19_evaluate_sum_spec : forall (V : Type) (vzero : V) (vadd : V -> V -> V) (parses : str -> outcome unit)
-    (uses_fact uses_factorial : str -> bool) (eval_limit : str -> list str -> nat -> outcome pyv)
+    (uses_fact uses_factorial : str -> bool) (eval_limit : str -> list str -> nat -> outcome pyv) (scope_check : str -> list str -> str -> outcome unit)
     (eval_term : str -> list str -> str -> Z -> nat -> outcome V) (cfg : config) (summand lower upper var : str)
     (scope : list str) (i : nat) (lo hi : pyv),
   mem var scope = false -> eval_limit lower scope i = Ret lo -> eval_limit upper scope i = Ret hi ->
   parses summand = Ret tt ->
   forall (l h : ilim) (eo c cf : Z),
+  scope_check summand scope var = Ret tt ->
   lo = pl l -> hi = pl h -> c_even_odd cfg = p_lit eo -> c_infty_val cfg = p_lit c -> c_infty_val_fact cfg = p_lit cf ->
-  evaluate_sum vzero vadd parses uses_fact uses_factorial eval_limit eval_term cfg summand lower upper var scope i =
+  evaluate_sum vzero vadd parses uses_fact uses_factorial eval_limit scope_check eval_term cfg summand lower upper var scope i =
   bounds_sum vzero vadd (fun n => eval_term summand scope var n i) eo
     (code_bounds l h (if any_fact uses_fact uses_factorial lower upper summand then cf else c)).
 Proof. exact @evaluate_sum_spec. Qed.
@@ -162,53 +165,54 @@ Proof. exact gen_limits_integers_pass. Qed.
 Print Assumptions C19_limit_checks_pass_on_integers_and_infinities.
 
 Theorem C19_limit_error_complex : forall (V : Type) (vzero : V) (vadd : V -> V -> V) (parses : str -> outcome unit)
-    (uses_fact uses_factorial : str -> bool) (eval_limit : str -> list str -> nat -> outcome pyv)
+    (uses_fact uses_factorial : str -> bool) (eval_limit : str -> list str -> nat -> outcome pyv) (scope_check : str -> list str -> str -> outcome unit)
     (eval_term : str -> list str -> str -> Z -> nat -> outcome V) (cfg : config) (summand lower upper var : str)
     (scope : list str) (i : nat) (lo hi : pyv),
   mem var scope = false -> eval_limit lower scope i = Ret lo -> eval_limit upper scope i = Ret hi ->
   parses summand = Ret tt ->
   lo = PCplx \/ (hi = PCplx /\ lo <> PExc) ->
-  evaluate_sum vzero vadd parses uses_fact uses_factorial eval_limit eval_term cfg summand lower upper var scope i
+  evaluate_sum vzero vadd parses uses_fact uses_factorial eval_limit scope_check eval_term cfg summand lower upper var scope i
   = Raise (ESummation MComplex).
 Proof. exact @complex_limit_error. Qed.
 Print Assumptions C19_limit_error_complex.
 
 Theorem C19_limit_error_noninteger_lower : forall (V : Type) (vzero : V) (vadd : V -> V -> V) (parses : str -> outcome unit)
-    (uses_fact uses_factorial : str -> bool) (eval_limit : str -> list str -> nat -> outcome pyv)
+    (uses_fact uses_factorial : str -> bool) (eval_limit : str -> list str -> nat -> outcome pyv) (scope_check : str -> list str -> str -> outcome unit)
     (eval_term : str -> list str -> str -> Z -> nat -> outcome V) (cfg : config) (summand lower upper var : str)
     (scope : list str) (i : nat) (lo hi : pyv),
   mem var scope = false -> eval_limit lower scope i = Ret lo -> eval_limit upper scope i = Ret hi ->
   parses summand = Ret tt ->
   forall (q : Q) (y : xnum), lo = PNum (XFin q) -> ~ (inject_Z (qtrunc q) == q)%Q -> hi = PNum y ->
-  evaluate_sum vzero vadd parses uses_fact uses_factorial eval_limit eval_term cfg summand lower upper var scope i
+  evaluate_sum vzero vadd parses uses_fact uses_factorial eval_limit scope_check eval_term cfg summand lower upper var scope i
   = Raise (ESummation MLowerInt).
 Proof. exact @noninteger_lower_error. Qed.
 Print Assumptions C19_limit_error_noninteger_lower.
 
 Theorem C19_limit_error_noninteger_upper : forall (V : Type) (vzero : V) (vadd : V -> V -> V) (parses : str -> outcome unit)
-    (uses_fact uses_factorial : str -> bool) (eval_limit : str -> list str -> nat -> outcome pyv)
+    (uses_fact uses_factorial : str -> bool) (eval_limit : str -> list str -> nat -> outcome pyv) (scope_check : str -> list str -> str -> outcome unit)
     (eval_term : str -> list str -> str -> Z -> nat -> outcome V) (cfg : config) (summand lower upper var : str)
     (scope : list str) (i : nat) (lo hi : pyv),
   mem var scope = false -> eval_limit lower scope i = Ret lo -> eval_limit upper scope i = Ret hi ->
   parses summand = Ret tt ->
   forall (l : ilim) (q : Q), lo = pl l -> hi = PNum (XFin q) -> ~ (inject_Z (qtrunc q) == q)%Q ->
-  evaluate_sum vzero vadd parses uses_fact uses_factorial eval_limit eval_term cfg summand lower upper var scope i
+  evaluate_sum vzero vadd parses uses_fact uses_factorial eval_limit scope_check eval_term cfg summand lower upper var scope i
   = Raise (ESummation MUpperInt).
 Proof. exact @noninteger_upper_error. Qed.
 Print Assumptions C19_limit_error_noninteger_upper.
 
 Theorem C19_limit_error_same_infinity : forall (V : Type) (vzero : V) (vadd : V -> V -> V) (parses : str -> outcome unit)
-    (uses_fact uses_factorial : str -> bool) (eval_limit : str -> list str -> nat -> outcome pyv)
+    (uses_fact uses_factorial : str -> bool) (eval_limit : str -> list str -> nat -> outcome pyv) (scope_check : str -> list str -> str -> outcome unit)
     (eval_term : str -> list str -> str -> Z -> nat -> outcome V) (cfg : config) (summand lower upper var : str)
     (scope : list str) (i : nat) (lo hi : pyv),
   mem var scope = false -> eval_limit lower scope i = Ret lo -> eval_limit upper scope i = Ret hi ->
   parses summand = Ret tt ->
-  forall eo c cf : Z, c_even_odd cfg = p_lit eo -> c_infty_val cfg = p_lit c -> c_infty_val_fact cfg = p_lit cf ->
+  forall eo c cf : Z, scope_check summand scope var = Ret tt ->
+  c_even_odd cfg = p_lit eo -> c_infty_val cfg = p_lit c -> c_infty_val_fact cfg = p_lit cf ->
   (lo = pl IPInf /\ hi = pl IPInf ->
-   evaluate_sum vzero vadd parses uses_fact uses_factorial eval_limit eval_term cfg summand lower upper var scope i
+   evaluate_sum vzero vadd parses uses_fact uses_factorial eval_limit scope_check eval_term cfg summand lower upper var scope i
    = Raise (ESummation MPosInf)) /\
   (lo = pl INInf /\ hi = pl INInf ->
-   evaluate_sum vzero vadd parses uses_fact uses_factorial eval_limit eval_term cfg summand lower upper var scope i
+   evaluate_sum vzero vadd parses uses_fact uses_factorial eval_limit scope_check eval_term cfg summand lower upper var scope i
    = Raise (ESummation MNegInf)).
 Proof. exact @same_infinity_error. Qed.
 Print Assumptions C19_limit_error_same_infinity.
@@ -216,53 +220,59 @@ Print Assumptions C19_limit_error_same_infinity.
 (* ---------------------------------------------------------------------------------------------- *)
 (* the summation variable                                                                          *)
 (* ---------------------------------------------------------------------------------------------- *)
-(* FULL STATEMENT (property text): "a summation variable that already has a meaning raises a student-facing error",
-   i.e. for every name among the functions, constants and variables of the problem (c_reserved ++ c_scope).
-   Proved: names in c_reserved (functions, constants), names that are not variable names, and names bound in the
-   scope the sum is evaluated in.  Missing: instructor-only variables, which gen_evaluations removes from the
-   student's scope before evaluate_sum looks (see C19_dummy_with_meaning_rejected_refuted). *)
-Theorem C19_dummy_with_meaning_rejected_partial :
+(* "a summation variable that already has a meaning raises a student-facing error": every name bound in the sample
+   dictionaries (variables and constants, including the instructor-only ones: fix e54e9a1), every function / constant
+   name, and everything that is not a variable name *)
+Theorem C19_dummy_with_meaning_rejected :
   (forall (V : Type) (vzero : V) (vadd : V -> V -> V) (parses : str -> outcome unit)
      (uses_fact uses_factorial : str -> bool) (eval_limit : str -> list str -> nat -> outcome pyv)
-     (eval_term : str -> list str -> str -> Z -> nat -> outcome V) (cfg : config) (summand lower upper var : str)
-     (scope : list str) (i : nat),
-   mem var scope = true ->
-   evaluate_sum vzero vadd parses uses_fact uses_factorial eval_limit eval_term cfg summand lower upper var scope i
+     (scope_check : str -> list str -> str -> outcome unit)
+     (eval_term : str -> list str -> str -> Z -> nat -> outcome V) (cfg : config) (student : list str) (i : nat),
+   mem (f_var student) (c_scope cfg) = true ->
+   student_eval vzero vadd parses uses_fact uses_factorial eval_limit scope_check eval_term cfg student i
    = Raise (ESummation MConflict))
   /\
   (forall (V : Type) (vzero : V) (vadd : V -> V -> V) (within : V -> V -> bool) (parses : str -> outcome unit)
      (uses_fact uses_factorial : str -> bool) (eval_limit : str -> list str -> nat -> outcome pyv)
+     (scope_check : str -> list str -> str -> outcome unit)
      (eval_term : str -> list str -> str -> Z -> nat -> outcome V) (valid_name : str -> outcome bool)
      (cfg : config) (tp : list (option Z)) (inputs fields : list str),
    structure_input cfg tp inputs = Ret fields -> existsb is_empty fields = false ->
    mem (f_var fields) (c_reserved cfg) = true ->
-   call vzero vadd within parses uses_fact uses_factorial eval_limit eval_term valid_name cfg tp inputs = Raise EInvalid)
+   call vzero vadd within parses uses_fact uses_factorial eval_limit scope_check eval_term valid_name cfg tp inputs = Raise EInvalid)
   /\
   (forall (V : Type) (vzero : V) (vadd : V -> V -> V) (within : V -> V -> bool) (parses : str -> outcome unit)
      (uses_fact uses_factorial : str -> bool) (eval_limit : str -> list str -> nat -> outcome pyv)
+     (scope_check : str -> list str -> str -> outcome unit)
      (eval_term : str -> list str -> str -> Z -> nat -> outcome V) (valid_name : str -> outcome bool)
      (cfg : config) (tp : list (option Z)) (inputs fields : list str),
    structure_input cfg tp inputs = Ret fields -> existsb is_empty fields = false ->
    mem (f_var fields) (c_reserved cfg) = false -> valid_name (f_var fields) = Ret false ->
-   call vzero vadd within parses uses_fact uses_factorial eval_limit eval_term valid_name cfg tp inputs = Raise EInvalid).
-Proof. exact (conj (@dummy_in_scope_error) (conj (@dummy_reserved_error) (@dummy_invalid_name_error))). Qed.
-Print Assumptions C19_dummy_with_meaning_rejected_partial.
+   call vzero vadd within parses uses_fact uses_factorial eval_limit scope_check eval_term valid_name cfg tp inputs = Raise EInvalid).
+Proof. exact (conj (@dummy_in_problem_scope_error) (conj (@dummy_reserved_error) (@dummy_invalid_name_error))). Qed.
+Print Assumptions C19_dummy_with_meaning_rejected.
 
-Theorem C19_dummy_with_meaning_rejected_refuted :
-  mem Sc (c_scope (w_cfg [S1; S2; Snn; Sn] all_four 0 [Sc] [Sc])) = true
-  /\ w_grade (w_cfg [S1; S2; Snn; Sn] all_four 0 [Sc] [Sc]) [S1; S2; Scc; Sc] = Ret true.
-Proof. exact dummy_instructor_var_refuted. Qed.
-Print Assumptions C19_dummy_with_meaning_rejected_refuted.
+(* the same at the level of evaluate_sum (also used for the author's sum): the variable is bound in the scope it runs in *)
+Theorem C19_dummy_in_scope_error : forall (V : Type) (vzero : V) (vadd : V -> V -> V) (parses : str -> outcome unit)
+    (uses_fact uses_factorial : str -> bool) (eval_limit : str -> list str -> nat -> outcome pyv)
+    (scope_check : str -> list str -> str -> outcome unit)
+    (eval_term : str -> list str -> str -> Z -> nat -> outcome V) (cfg : config) (summand lower upper var : str)
+    (scope : list str) (i : nat),
+  mem var scope = true ->
+  evaluate_sum vzero vadd parses uses_fact uses_factorial eval_limit scope_check eval_term cfg summand lower upper var scope i
+  = Raise (ESummation MConflict).
+Proof. exact @dummy_in_scope_error. Qed.
+Print Assumptions C19_dummy_in_scope_error.
 
 (* ---------------------------------------------------------------------------------------------- *)
 (* blank fields                                                                                    *)
 (* ---------------------------------------------------------------------------------------------- *)
 Theorem C19_blank_field_error : forall (V : Type) (vzero : V) (vadd : V -> V -> V) (within : V -> V -> bool)
     (parses : str -> outcome unit) (uses_fact uses_factorial : str -> bool)
-    (eval_limit : str -> list str -> nat -> outcome pyv) (eval_term : str -> list str -> str -> Z -> nat -> outcome V)
+    (eval_limit : str -> list str -> nat -> outcome pyv) (scope_check : str -> list str -> str -> outcome unit) (eval_term : str -> list str -> str -> Z -> nat -> outcome V)
     (valid_name : str -> outcome bool) (cfg : config) (tp : list (option Z)) (inputs fields : list str),
   structure_input cfg tp inputs = Ret fields -> existsb is_empty fields = true ->
-  call vzero vadd within parses uses_fact uses_factorial eval_limit eval_term valid_name cfg tp inputs = Raise EMissing.
+  call vzero vadd within parses uses_fact uses_factorial eval_limit scope_check eval_term valid_name cfg tp inputs = Raise EMissing.
 Proof. exact @blank_field_error. Qed.
 Print Assumptions C19_blank_field_error.
 
@@ -275,38 +285,49 @@ Print Assumptions C19_every_blank_box_is_seen.
 (* ---------------------------------------------------------------------------------------------- *)
 (* instructor-only variables                                                                       *)
 (* ---------------------------------------------------------------------------------------------- *)
-(* FULL STATEMENT (property text): "use of instructor-only variables raises a student-facing error", in either limit
-   or in the summand.  Proved for the limits always and for the summand whenever at least one term is summed, assuming
-   the evaluator checks its scope (C09/C10).  Missing: a summand over an empty index set is never evaluated
-   (see C19_instructor_var_rejected_refuted). *)
-Theorem C19_instructor_var_rejected_partial : forall (V : Type) (vzero : V) (vadd : V -> V -> V) (parses : str -> outcome unit)
+(* "use of instructor-only variables raises a student-facing error", in either limit or in the summand, whatever the
+   index set (fix 390fac8: the summand's names are checked even when no term is summed), assuming the evaluator and
+   check_scope test the scope they are given (C09 / C10) *)
+Theorem C19_instructor_var_rejected : forall (V : Type) (vzero : V) (vadd : V -> V -> V) (parses : str -> outcome unit)
     (uses_fact uses_factorial : str -> bool) (eval_limit : str -> list str -> nat -> outcome pyv)
+    (scope_check : str -> list str -> str -> outcome unit)
     (eval_term : str -> list str -> str -> Z -> nat -> outcome V) (cfg : config) (mentions : str -> str -> bool),
   (forall (s : str) (sc : list str) (i : nat) (v : str),
    mentions s v = true -> mem v sc = false -> eval_limit s sc i = Raise ECalc) ->
-  (forall (s : str) (sc : list str) (x : str) (n : Z) (i : nat) (v : str),
-   mentions s v = true -> mem v sc = false -> str_eqb v x = false -> eval_term s sc x n i = Raise ECalc) ->
+  (forall (s : str) (sc : list str) (x v : str),
+   mentions s v = true -> mem v sc = false -> str_eqb v x = false -> scope_check s sc x = Raise ECalc) ->
   forall (summand lower upper var v : str) (i : nat),
   In v (c_instructor cfg) -> mem v (c_scope cfg) = true -> mem var (student_scope cfg) = false ->
   (mentions lower v = true ->
-   evaluate_sum vzero vadd parses uses_fact uses_factorial eval_limit eval_term cfg summand lower upper var
+   evaluate_sum vzero vadd parses uses_fact uses_factorial eval_limit scope_check eval_term cfg summand lower upper var
      (student_scope cfg) i = Raise ECalc) /\
   (forall lo : pyv, eval_limit lower (student_scope cfg) i = Ret lo -> mentions upper v = true ->
-   evaluate_sum vzero vadd parses uses_fact uses_factorial eval_limit eval_term cfg summand lower upper var
+   evaluate_sum vzero vadd parses uses_fact uses_factorial eval_limit scope_check eval_term cfg summand lower upper var
      (student_scope cfg) i = Raise ECalc) /\
-  (forall a b d : Z,
-   evaluate_sum_plan parses uses_fact uses_factorial eval_limit cfg summand lower upper var (student_scope cfg) i = Ret (a, b, d) ->
-   zrange a b d <> [] -> mentions summand v = true -> str_eqb v var = false ->
-   evaluate_sum vzero vadd parses uses_fact uses_factorial eval_limit eval_term cfg summand lower upper var
+  (forall lo hi : pyv, eval_limit lower (student_scope cfg) i = Ret lo -> eval_limit upper (student_scope cfg) i = Ret hi ->
+   parses summand = Ret tt -> evaluate_sum_limits lo hi = Ret tt ->
+   mentions summand v = true -> str_eqb v var = false ->
+   evaluate_sum vzero vadd parses uses_fact uses_factorial eval_limit scope_check eval_term cfg summand lower upper var
      (student_scope cfg) i = Raise ECalc).
 Proof. exact @instructor_var_rejected. Qed.
-Print Assumptions C19_instructor_var_rejected_partial.
+Print Assumptions C19_instructor_var_rejected.
 
-Theorem C19_instructor_var_rejected_refuted :
-  w_grade (instr_cfg S2 S2 1) [S2; S2; Scn; Sn] = Ret true
-  /\ w_grade (instr_cfg S1 S2 0) [S1; S2; Scn; Sn] = Raise ECalc.
-Proof. exact instructor_var_refuted. Qed.
-Print Assumptions C19_instructor_var_rejected_refuted.
+(* unconditionally (whatever else is wrong with the submission): a sum that uses an instructor variable never yields a value *)
+Theorem C19_instructor_var_never_evaluates : forall (V : Type) (vzero : V) (vadd : V -> V -> V) (parses : str -> outcome unit)
+    (uses_fact uses_factorial : str -> bool) (eval_limit : str -> list str -> nat -> outcome pyv)
+    (scope_check : str -> list str -> str -> outcome unit)
+    (eval_term : str -> list str -> str -> Z -> nat -> outcome V) (cfg : config) (mentions : str -> str -> bool),
+  (forall (s : str) (sc : list str) (i : nat) (v : str),
+   mentions s v = true -> mem v sc = false -> eval_limit s sc i = Raise ECalc) ->
+  (forall (s : str) (sc : list str) (x v : str),
+   mentions s v = true -> mem v sc = false -> str_eqb v x = false -> scope_check s sc x = Raise ECalc) ->
+  forall (summand lower upper var v : str) (i : nat),
+  In v (c_instructor cfg) -> mem v (c_scope cfg) = true -> str_eqb v var = false ->
+  mentions lower v = true \/ mentions upper v = true \/ mentions summand v = true ->
+  exists e, evaluate_sum vzero vadd parses uses_fact uses_factorial eval_limit scope_check eval_term cfg summand lower upper var
+              (student_scope cfg) i = Raise e.
+Proof. exact @instructor_var_never_evaluates. Qed.
+Print Assumptions C19_instructor_var_never_evaluates.
 
 (* ---------------------------------------------------------------------------------------------- *)
 (* input positions: every subset, every order                                                      *)
@@ -325,10 +346,10 @@ Print Assumptions C19_input_positions_invalid.
 
 Theorem C19_wrong_number_of_inputs : forall (V : Type) (vzero : V) (vadd : V -> V -> V) (within : V -> V -> bool)
     (parses : str -> outcome unit) (uses_fact uses_factorial : str -> bool)
-    (eval_limit : str -> list str -> nat -> outcome pyv) (eval_term : str -> list str -> str -> Z -> nat -> outcome V)
+    (eval_limit : str -> list str -> nat -> outcome pyv) (scope_check : str -> list str -> str -> outcome unit) (eval_term : str -> list str -> str -> Z -> nat -> outcome V)
     (valid_name : str -> outcome bool) (cfg : config) (tp : list (option Z)) (inputs : list str),
   count_used tp <> length inputs ->
-  call vzero vadd within parses uses_fact uses_factorial eval_limit eval_term valid_name cfg tp inputs = Raise EConfig.
+  call vzero vadd within parses uses_fact uses_factorial eval_limit scope_check eval_term valid_name cfg tp inputs = Raise EConfig.
 Proof. exact @wrong_count_config_error. Qed.
 Print Assumptions C19_wrong_number_of_inputs.
 
@@ -343,17 +364,17 @@ Print Assumptions C19_wrong_number_of_inputs.
    (int(nan), ambiguous truth value of an array limit) are not caught. *)
 Theorem C19_author_failure_is_config_error_partial : forall (V : Type) (vzero : V) (vadd : V -> V -> V) (within : V -> V -> bool)
     (parses : str -> outcome unit) (uses_fact uses_factorial : str -> bool)
-    (eval_limit : str -> list str -> nat -> outcome pyv) (eval_term : str -> list str -> str -> Z -> nat -> outcome V)
+    (eval_limit : str -> list str -> nat -> outcome pyv) (scope_check : str -> list str -> str -> outcome unit) (eval_term : str -> list str -> str -> Z -> nat -> outcome V)
     (valid_name : str -> outcome bool) (cfg : config) (tp : list (option Z)) (inputs fields : list str),
   structure_input cfg tp inputs = Ret fields -> existsb is_empty fields = false ->
   validate_dummy valid_name cfg (f_var fields) = Ret tt -> parse_all parses (c_answers cfg ++ fields) = Ret tt ->
   forall (i : nat) (e : err), (i < c_samples cfg)%nat ->
   (forall j : nat, (j < i)%nat -> exists a s : V,
-     author_eval vzero vadd parses uses_fact uses_factorial eval_limit eval_term cfg j = Ret a /\
-     evaluate_fields vzero vadd parses uses_fact uses_factorial eval_limit eval_term cfg fields (student_scope cfg) j = Ret s) ->
-  evaluate_fields vzero vadd parses uses_fact uses_factorial eval_limit eval_term cfg (c_answers cfg) (c_scope cfg) i = Raise e ->
+     author_eval vzero vadd parses uses_fact uses_factorial eval_limit scope_check eval_term cfg j = Ret a /\
+     student_eval vzero vadd parses uses_fact uses_factorial eval_limit scope_check eval_term cfg fields j = Ret s) ->
+  evaluate_fields vzero vadd parses uses_fact uses_factorial eval_limit scope_check eval_term cfg (c_answers cfg) (c_scope cfg) i = Raise e ->
   is_mitx e = true ->
-  call vzero vadd within parses uses_fact uses_factorial eval_limit eval_term valid_name cfg tp inputs = Raise EConfig.
+  call vzero vadd within parses uses_fact uses_factorial eval_limit scope_check eval_term valid_name cfg tp inputs = Raise EConfig.
 Proof. exact @author_failure_is_config_error_guarded. Qed.
 Print Assumptions C19_author_failure_is_config_error_partial.
 
@@ -368,18 +389,18 @@ Print Assumptions C19_author_failure_is_config_error_refuted.
 (* a failure of the student's sum (author fine) leaves the grader with its own, student-facing, class *)
 Theorem C19_student_error_is_passed_on : forall (V : Type) (vzero : V) (vadd : V -> V -> V) (within : V -> V -> bool)
     (parses : str -> outcome unit) (uses_fact uses_factorial : str -> bool)
-    (eval_limit : str -> list str -> nat -> outcome pyv) (eval_term : str -> list str -> str -> Z -> nat -> outcome V)
+    (eval_limit : str -> list str -> nat -> outcome pyv) (scope_check : str -> list str -> str -> outcome unit) (eval_term : str -> list str -> str -> Z -> nat -> outcome V)
     (valid_name : str -> outcome bool) (cfg : config) (tp : list (option Z)) (inputs fields : list str),
   structure_input cfg tp inputs = Ret fields -> existsb is_empty fields = false ->
   validate_dummy valid_name cfg (f_var fields) = Ret tt -> parse_all parses (c_answers cfg ++ fields) = Ret tt ->
   forall (i : nat) (e : err) (a : V), (i < c_samples cfg)%nat ->
   (forall j : nat, (j < i)%nat -> exists a0 s : V,
-     author_eval vzero vadd parses uses_fact uses_factorial eval_limit eval_term cfg j = Ret a0 /\
-     evaluate_fields vzero vadd parses uses_fact uses_factorial eval_limit eval_term cfg fields (student_scope cfg) j = Ret s) ->
-  author_eval vzero vadd parses uses_fact uses_factorial eval_limit eval_term cfg i = Ret a ->
-  evaluate_fields vzero vadd parses uses_fact uses_factorial eval_limit eval_term cfg fields (student_scope cfg) i = Raise e ->
+     author_eval vzero vadd parses uses_fact uses_factorial eval_limit scope_check eval_term cfg j = Ret a0 /\
+     student_eval vzero vadd parses uses_fact uses_factorial eval_limit scope_check eval_term cfg fields j = Ret s) ->
+  author_eval vzero vadd parses uses_fact uses_factorial eval_limit scope_check eval_term cfg i = Ret a ->
+  student_eval vzero vadd parses uses_fact uses_factorial eval_limit scope_check eval_term cfg fields i = Raise e ->
   e <> EOther ->
-  call vzero vadd within parses uses_fact uses_factorial eval_limit eval_term valid_name cfg tp inputs = Raise e.
+  call vzero vadd within parses uses_fact uses_factorial eval_limit scope_check eval_term valid_name cfg tp inputs = Raise e.
 Proof. exact @student_error_is_passed_on. Qed.
 Print Assumptions C19_student_error_is_passed_on.
 
@@ -394,15 +415,15 @@ Print Assumptions C19_consolidate_spec.
 
 Theorem C19_verdict_general : forall (V : Type) (vzero : V) (vadd : V -> V -> V) (within : V -> V -> bool)
     (parses : str -> outcome unit) (uses_fact uses_factorial : str -> bool)
-    (eval_limit : str -> list str -> nat -> outcome pyv) (eval_term : str -> list str -> str -> Z -> nat -> outcome V)
+    (eval_limit : str -> list str -> nat -> outcome pyv) (scope_check : str -> list str -> str -> outcome unit) (eval_term : str -> list str -> str -> Z -> nat -> outcome V)
     (valid_name : str -> outcome bool) (cfg : config) (tp : list (option Z)) (inputs fields : list str),
   structure_input cfg tp inputs = Ret fields -> existsb is_empty fields = false ->
   validate_dummy valid_name cfg (f_var fields) = Ret tt -> parse_all parses (c_answers cfg ++ fields) = Ret tt ->
   forall A S : nat -> V,
   (forall i : nat, (i < c_samples cfg)%nat ->
-     author_eval vzero vadd parses uses_fact uses_factorial eval_limit eval_term cfg i = Ret (A i) /\
-     evaluate_fields vzero vadd parses uses_fact uses_factorial eval_limit eval_term cfg fields (student_scope cfg) i = Ret (S i)) ->
-  call vzero vadd within parses uses_fact uses_factorial eval_limit eval_term valid_name cfg tp inputs =
+     author_eval vzero vadd parses uses_fact uses_factorial eval_limit scope_check eval_term cfg i = Ret (A i) /\
+     student_eval vzero vadd parses uses_fact uses_factorial eval_limit scope_check eval_term cfg fields i = Ret (S i)) ->
+  call vzero vadd within parses uses_fact uses_factorial eval_limit scope_check eval_term valid_name cfg tp inputs =
   Ret (consolidate (map (fun i : nat => within (A i) (S i)) (seq 0 (c_samples cfg))) (c_failable cfg)).
 Proof. exact @verdict_general. Qed.
 Print Assumptions C19_verdict_general.
@@ -410,17 +431,17 @@ Print Assumptions C19_verdict_general.
 (* graded correct exactly when the evaluated sum equals the author's within tolerance at every sample *)
 Theorem C19_graded_correct_iff : forall (V : Type) (vzero : V) (vadd : V -> V -> V) (within : V -> V -> bool)
     (parses : str -> outcome unit) (uses_fact uses_factorial : str -> bool)
-    (eval_limit : str -> list str -> nat -> outcome pyv) (eval_term : str -> list str -> str -> Z -> nat -> outcome V)
+    (eval_limit : str -> list str -> nat -> outcome pyv) (scope_check : str -> list str -> str -> outcome unit) (eval_term : str -> list str -> str -> Z -> nat -> outcome V)
     (valid_name : str -> outcome bool) (cfg : config) (tp : list (option Z)) (inputs fields : list str),
   structure_input cfg tp inputs = Ret fields -> existsb is_empty fields = false ->
   validate_dummy valid_name cfg (f_var fields) = Ret tt -> parse_all parses (c_answers cfg ++ fields) = Ret tt ->
   forall A S : nat -> V,
   c_failable cfg = 0%nat ->
   (forall i : nat, (i < c_samples cfg)%nat ->
-     author_eval vzero vadd parses uses_fact uses_factorial eval_limit eval_term cfg i = Ret (A i) /\
-     evaluate_fields vzero vadd parses uses_fact uses_factorial eval_limit eval_term cfg fields (student_scope cfg) i = Ret (S i)) ->
+     author_eval vzero vadd parses uses_fact uses_factorial eval_limit scope_check eval_term cfg i = Ret (A i) /\
+     student_eval vzero vadd parses uses_fact uses_factorial eval_limit scope_check eval_term cfg fields i = Ret (S i)) ->
   exists b : bool,
-    call vzero vadd within parses uses_fact uses_factorial eval_limit eval_term valid_name cfg tp inputs = Ret b /\
+    call vzero vadd within parses uses_fact uses_factorial eval_limit scope_check eval_term valid_name cfg tp inputs = Ret b /\
     (b = true <-> (forall i : nat, (i < c_samples cfg)%nat -> within (A i) (S i) = true)).
 Proof. exact @graded_correct_iff. Qed.
 Print Assumptions C19_graded_correct_iff.
@@ -447,6 +468,20 @@ Example C19_ex_parity_and_cutoff :
   /\ Gen.Summation.gen_summation_plan (p_lit 2) (p_lit 2) (p_lit 1) (p_lit 1000) = Ret (3, 3, 2).
 Proof. exact ex_parity. Qed.
 Print Assumptions C19_ex_parity_and_cutoff.
+
+(* regression examples for the two repaired defects (formerly _refuted witnesses) *)
+Example C19_ex_instructor_var_rejected_on_empty_range :
+  w_grade (instr_cfg S2 S2 1) [S2; S2; Scn; Sn] = Raise ECalc
+  /\ w_grade (instr_cfg S1 S2 0) [S1; S2; Scn; Sn] = Raise ECalc
+  /\ w_grade (w_cfg [S1; S2; Scn; Sn] all_four 0 [Sc] [Sc]) [S1; S2; Sn; Sn] = Ret false.
+Proof. exact ex_instructor_var_rejected. Qed.
+Print Assumptions C19_ex_instructor_var_rejected_on_empty_range.
+
+Example C19_ex_instructor_var_as_dummy_rejected :
+  mem Sc (c_scope (w_cfg [S1; S2; Snn; Sn] all_four 0 [Sc] [Sc])) = true
+  /\ w_grade (w_cfg [S1; S2; Snn; Sn] all_four 0 [Sc] [Sc]) [S1; S2; Scc; Sc] = Raise (ESummation MConflict).
+Proof. exact ex_instructor_var_as_dummy_rejected. Qed.
+Print Assumptions C19_ex_instructor_var_as_dummy_rejected.
 
 (* the limits are sorted BEFORE infinity is replaced: a finite limit beyond the cutoff gives the empty sum, not the sum
    from the cutoff to the limit (outside the property's quantifier: cutoffs are meant to be large) *)
